@@ -12,16 +12,17 @@ import (
 
 // Emission is one line template handed to a sink during a converter method.
 type Emission struct {
-	Method  string   // exported converter method (or helper region)
-	Via     []string // chain of inlined product functions
-	Sink    string
-	T       Tmpl
-	Conds   []string // symbolic conditions controlling the emission
-	InLoop  bool
-	Pos     token.Pos // position of the statement in the exported method that leads to the emission
-	SinkPos token.Pos
-	Seq     int
-	Helper  string // name of the shell helper routine this line belongs to ("" = main code)
+	Method     string   // exported converter method (or helper region)
+	Via        []string // chain of inlined product functions
+	Sink       string
+	T          Tmpl
+	Conds      []string // symbolic conditions controlling the emission
+	InLoop     bool
+	Pos        token.Pos // position of the statement in the exported method that leads to the emission
+	SinkPos    token.Pos
+	Seq        int
+	SetsBefore int    // number of field stores of the method walked before this emission
+	Helper     string // name of the shell helper routine this line belongs to ("" = main code)
 }
 
 // MethodFacts is everything E3 extracts for one exported converter method.
@@ -32,6 +33,18 @@ type MethodFacts struct {
 	Returns    []Val               // per result index: returned template(s) on success paths
 	FieldsSet  map[string][]string // field -> description of stored values
 	FieldsRead map[string]bool
+	SetOrder   []string // fields in the order their stores are met while walking the method
+}
+
+// SetBefore: was the field stored (by this activation, including the helpers it calls)
+// before the emission was made?
+func (mf *MethodFacts) SetBefore(em Emission, field string) bool {
+	for i := 0; i < em.SetsBefore && i < len(mf.SetOrder); i++ {
+		if mf.SetOrder[i] == field {
+			return true
+		}
+	}
+	return false
 }
 
 type Extractor struct {
@@ -257,9 +270,11 @@ func (x *Extractor) walkAt(fn *ssa.Function, e *env, mf *MethodFacts, via []stri
 				if fa, ok := ins.Addr.(*ssa.FieldAddr); ok && x.isConvPtr(fa.X.Type()) {
 					name := structFieldName(fa.X.Type(), fa.Field)
 					mf.FieldsSet[name] = append(mf.FieldsSet[name], describeVal(x.eval(ins.Val, e)))
+					mf.SetOrder = append(mf.SetOrder, name)
 				}
 				if g, ok := ins.Addr.(*ssa.Global); ok && g.Pkg == fn.Pkg {
 					mf.FieldsSet[g.Name()] = append(mf.FieldsSet[g.Name()], describeVal(x.eval(ins.Val, e)))
+					mf.SetOrder = append(mf.SetOrder, g.Name())
 				}
 			case *ssa.UnOp:
 				if fa, ok := ins.X.(*ssa.FieldAddr); ok && ins.Op == token.MUL && x.isConvPtr(fa.X.Type()) {
@@ -331,9 +346,11 @@ func (x *Extractor) walkEffects(fn *ssa.Function, e *env, mf *MethodFacts, seen 
 				if fa, ok := ins.Addr.(*ssa.FieldAddr); ok && x.isConvPtr(fa.X.Type()) {
 					name := structFieldName(fa.X.Type(), fa.Field)
 					mf.FieldsSet[name] = append(mf.FieldsSet[name], describeVal(x.eval(ins.Val, e)))
+					mf.SetOrder = append(mf.SetOrder, name)
 				}
 				if g, ok := ins.Addr.(*ssa.Global); ok && g.Pkg == fn.Pkg {
 					mf.FieldsSet[g.Name()] = append(mf.FieldsSet[g.Name()], describeVal(x.eval(ins.Val, e)))
+					mf.SetOrder = append(mf.SetOrder, g.Name())
 				}
 			case *ssa.UnOp:
 				if fa, ok := ins.X.(*ssa.FieldAddr); ok && ins.Op == token.MUL && x.isConvPtr(fa.X.Type()) {
@@ -396,6 +413,7 @@ func PathCompatible(a, b Emission) bool {
 // emit appends an emission, replicating it per element when its template
 // refers to the current element of a finite list (variadic line lists).
 func (x *Extractor) emit(mf *MethodFacts, em Emission) {
+	em.SetsBefore = len(mf.SetOrder)
 	ids := em.T.elemIDs()
 	if len(ids) == 0 {
 		x.seq++
